@@ -276,9 +276,9 @@ class Source:
         'impl <header>' | 'impl <header> :: fn name' | 'mod m :: ...'.
         Returns the unique Item or raises RsxError."""
         parts = [p.strip() for p in selector.split(" :: ")]
-        scope = self.top
-        it = None
-        for p in parts:
+        scope = list(self.top)
+        cands = []
+        for n, p in enumerate(parts):
             kind, _, name = p.partition(" ")
             name = name.strip()
             if kind == "impl":
@@ -288,11 +288,12 @@ class Source:
                     cands = [x for x in scope if x.kind == "impl" and _impl_match(x.name, want)]
             else:
                 cands = [x for x in scope if x.kind == kind and x.name == name]
-            if len(cands) != 1:
+            last = n == len(parts) - 1
+            # several `impl T` blocks are fine as long as the full selector is unique
+            if (last or kind != "impl") and len(cands) != 1 or not cands:
                 raise RsxError("selector %r in %s: %d matches for %r" % (selector, self.path, len(cands), p))
-            it = cands[0]
-            scope = self.children(it)
-        return it
+            scope = [c for it in cands for c in self.children(it)]
+        return cands[0]
 
     def text_of(self, it, with_attrs=False):
         return self.text[(it.attr_a if with_attrs else it.a):it.b]
@@ -384,6 +385,12 @@ class FnText:
         """insert requires/ensures/decreases text right before the body"""
         a = self.toks[self.it.open].a
         self.text = self.text[:a] + "\n" + spec.rstrip() + "\n" + self.text[a:]
+        self._scan()
+
+    def body_start(self, text):
+        """insert text right after the body's opening brace"""
+        b = self.toks[self.it.open].b
+        self.text = self.text[:b] + "\n" + text + "\n" + self.text[b:]
         self._scan()
 
     # --- loops ---
